@@ -159,16 +159,24 @@ def _snode_class():
             self.pids = pids          # entity -> partition
             self.cnt = 0
             self.seen = set()
+            self.timers = {}          # armed timers (Event objects) by serial number
+            self.nsid = 0
 
         def handle_event(self, ev):
             t = ev.time.nanoseconds
             typ = ev.event_type[1:]
+            cancels = None
+            if "c" in typ:                      # the canceller of timer <sid>
+                typ, cs = typ.split("c")
+                cancels = int(cs)
             if "s" in typ:
                 ks, ss = typ.split("s")
                 k, origin = int(ks), str(self.pids[int(ss)])
             else:
                 k, origin = int(typ), "i"
             self.log.append((t, k, origin))
+            if cancels is not None:
+                self.timers.pop(cancels).cancel()      # Event.cancel(): no-op if it has fired already
             ems = list(self.script.get(k, ()))
             for r in self.rules:
                 if r[0] == "first":
@@ -183,10 +191,24 @@ def _snode_class():
                     _n, _e, k0, d, tgt, k2 = r
                     if k == k0 and k0 not in self.seen:
                         ems.append((d, tgt, k2, False))
+                elif r[0] == "tmr":
+                    _n, _e, k0, dt, kt, dc, kc = r
+                    if k == k0:
+                        ems.append((dt, self.eid, kt, "timer"))
+                        ems.append((dc, self.eid, kc, "cancel"))
             self.cnt += 1
             self.seen.add(k)
             out = []
             for (d, tgt, k2, as_s) in ems:
+                if as_s == "timer":
+                    self.nsid += 1
+                    tm = Event(time=Instant(t + d), event_type=f"k{k2}s{self.eid}", target=self)
+                    self.timers[self.nsid] = tm
+                    out.append(tm)
+                    continue
+                if as_s == "cancel":
+                    out.append(Event(time=Instant(t + d), event_type=f"k{k2}s{self.eid}c{self.nsid}", target=self))
+                    continue
                 peer = self.peers[tgt]
                 when = ev.time + (d / 1e9) if as_s else Instant(t + d)
                 if peer.pid != self.pid:
@@ -263,6 +285,11 @@ class C05(core.Property):
             "tie-commutative handlers with state-dependent emissions. family tiex (5 %): two partitions with one stateful entity each, links both ways (L, 2L), window ∈ {default, L, L/2, L−1}, "
             "all instants and delays on a grid of L/2, order-sensitive rules first (answer kind A only while no kind B was delivered) with local or cross-partition answers, in half of the cases a planted tie "
             "(a cross-partition and a self-sent event due at one instant, the cross one created first, the receiver answering one of the two kinds only while it has not seen the other). "
+            "family timers (2.5 %): a stateful entity arms 1–3 timers and cancels them (Event.cancel(), rule tmr: canceller after 0 / 1 ns / w/10 / w/4, timer expiring before, exactly when or "
+            "after its canceller runs, inside or beyond the window), its next live event lies 1.5–20 windows ahead (control: also one in between), and another partition sends it an event due 1 ns / w/4 / w/2 / "
+            "w−1 / w / w+1 after the window end; tmr rules also in family stateful. "
+            "start_time / duration (all families but invalid): 30 % of the cases start at S ∈ {1 ns, w/2+1, w, 3w+1, 7w, 1 s, 2.5–3.5 s, random} (all instants move by S), half of those with a finite end and 15 % of the "
+            "epoch cases pass duration= instead of end_time= (to ParallelSimulation and to Simulation). "
             "Stateful transcripts carry the real delivery order (no canonicalisation) and the sender's partition of every delivery; the model assigns creation indices as the code does. "
             "non-trivial = at least one cross-partition event was exchanged; distinct = distinct case content")
     trusted_base = [
@@ -279,11 +306,13 @@ class C05(core.Property):
         "the coordinator calls latency.sample(), which LatencyDistribution does not have)",
         "wall-clock summary fields (speedup, efficiency, barrier overhead) are not compared",
         "80 % of the correspondence runs use stateless script entities; 20 % (families stateful, tiex) stateful ones: delivery counter + set of kinds seen, rules nth / dedup "
-        "(tie-commutative: ruleHandler_tieCommutative) and first (order-sensitive), compared with the model delivery by delivery in the real order",
+        "(tie-commutative: ruleHandler_commAt) and first (order-sensitive), compared with the model delivery by delivery in the real order",
         "known finding (design-level, fixes/C05-tie-order-sensitive-handlers.known.md, signature par/tie-order/cross-arrival-after-local-tie, witness corpus/C05/tie-order-first-kind-wins.json): "
         "for handlers that are order-sensitive inside one timestamp the main clause is false of model and code alike (a cross-partition arrival is injected at the barrier and delivered after a local "
         "event of the same timestamp that sequentially comes later); family tiex hits it a few times per run; the order-sensitive rule is generated only for two single-entity partitions, where every "
         "tie inversion has the named form",
+        "cancelled events (lazy deletion in Simulation._execute_until: popped and skipped, behind the strict-window peek guard) are modelled as ghost deliveries: the stateful entity's handler "
+        "returns its state unchanged and emits nothing (ghost_is_silent), the ghost is removed from the printed log; it advances the model clock to its own time, which no later event can precede",
         "the stateful modes of the model (runs / judges) use coordLoopR + Part.initCtr (creation indices as in core/event.py, event_heap.py, Simulation.schedule at a barrier); the stateless modes keep "
         "coordLoop (indices of injected events unchanged) — there the order inside a timestamp is canonicalised and cannot influence a stateless script",
         "times < 100 s so that the coordinator's float min-latency check (delay_s < min_latency - 1e-12) is exact on the ns grid",
@@ -325,6 +354,7 @@ class C05(core.Property):
             "seq_final_state: states equal to the sequential run's when it has no horizon overshoot). "
             "agree_before_first_tie(_R): for every handler the two runs agree up to the first same-timestamp group of the sequential run, so the model's divergences are always tie-order divergences; "
             "the _R theorems are the same statements for coordLoopR, the coordinator with the code's creation indices that the driver runs for stateful entities. "
+            "ruleHandler_commAt: the check's stateful entities without `first` rules commute on every same-timestamp pair except a timer and its own canceller (created together, never reordered). "
             "Exact remaining gap: handlers that are order-sensitive inside a timestamp AND receive such ties (there the clause is false: known finding par/tie-order/…); "
             "handlers that read another entity's state (not entity-local) or the event's creation index; (2) asks commutation for all "
             "same-timestamp pairs of events, not only those that actually tie in the run (the core lemma `stateful_core` needs it only for pairs "
@@ -333,6 +363,32 @@ class C05(core.Property):
 
     # ------------------------------------------------------------------ generation
     def generate(self, rng: random.Random, i: int, tier: str) -> dict:
+        case = self.generate0(rng, i, tier)
+        return case if case["family"] == "invalid" else self.with_start(case, rng)
+
+    def with_start(self, case, rng):
+        """start_time / duration: 30 % of the cases start at S ≠ epoch (every instant of the case moves by S, so the window
+        grid S + k·w keeps its alignment with the events), and half of those with a finite end — and 15 % of the epoch cases —
+        pass `duration=` instead of `end_time=` to ParallelSimulation and Simulation (end = start + duration)"""
+        lmin = min((l[2] for l in case["links"]), default=1_000_000)
+        w = trunc_ns(case["window"] if case["window"] is not None else lmin) or 1
+        S = 0
+        if rng.random() < 0.3:
+            S = rng.choice([1, w // 2 + 1, w, 3 * w + 1, 7 * w, 1_000_000_000, 2_500_000_000 + rng.randrange(0, 1000) * 1_000_000,
+                            rng.randrange(1, 10 * w + 2)])
+            for x in case["init"]:
+                x[0] += S
+            if case["end"] is not None:
+                case["end"] += S
+            case["start"] = S
+        if case["end"] is not None and rng.random() < (0.5 if S else 0.15):
+            dur = case["end"] - S
+            if dur > 0:
+                case["dur"] = dur
+                case["end"] = S + trunc_ns(dur)       # Instant + float seconds
+        return case
+
+    def generate0(self, rng: random.Random, i: int, tier: str) -> dict:
         r = i % 10
         if r == 0:
             return self.gen(rng, tier, family="indep")
@@ -347,7 +403,7 @@ class C05(core.Property):
         if r == 8:
             return self.gen_stateful(rng, tier)
         if r == 9:
-            return self.gen_tiex(rng, tier) if (i // 10) % 2 == 0 else self.gen_stateful(rng, tier)
+            return [self.gen_tiex, self.gen_stateful, self.gen_timers, self.gen_tiex][(i // 10) % 4](rng, tier)
         return self.gen(rng, tier, family="linked")
 
     # ---- stateful harness entities ------------------------------------------------------------------
@@ -393,6 +449,12 @@ class C05(core.Property):
                 sprog.append(["nth", e, rng.randint(1, 5), d, t, k2])
             else:
                 sprog.append(["dedup", e, rng.randrange(nk + 1), d, t, k2])
+        # timers that are cancelled before (or exactly when, or after) they expire
+        for _ in range(rng.choice([0, 0, 1, 1, 2])):
+            e = rng.randrange(nent)
+            dc = rng.choice([0, 1, w // 4, w // 2, w - 1, w])
+            dt = rng.choice([dc, dc + 1, dc + w // 4, dc + w, max(0, dc - 1), 2 * w])
+            sprog.append(["tmr", e, rng.randrange(nk + 1), dt, nk + 6, dc, nk + 7])
         # planted tie of two cross-partition arrivals from different source partitions (plus a self-sent event) at one
         # entity: their order is the order in which the barrier exchange walks the outboxes
         trip = [(a, b, t) for t in range(nent) for a in range(nent) for b in range(nent)
@@ -417,6 +479,60 @@ class C05(core.Property):
                 case["end"] = arr + rng.choice([0, 1, w])
         case["sprog"] = sprog
         return case
+
+    def gen_timers(self, rng, tier):
+        """family timers: a partition whose next pending events are *cancelled* timers (armed and cancelled inside the
+        current window by a stateful entity), whose next live event lies windows ahead, and which receives a
+        cross-partition event due in between (just after / a fraction of a window after / on the next boundary after the
+        window end).  The cancelled events must be skipped without the partition running past the barrier.  Controls:
+        timers that expire before / exactly when / after their canceller runs, timers beyond the window end, several
+        cancelled timers in a row, a live event between the cancelled timer and the window end."""
+        nparts = rng.choice([2, 2, 3])
+        ents = [0, 1] + ([rng.choice([0, 1, nparts - 1])] if rng.random() < 0.3 else [])
+        L = rng.choice([1_000, 100_000, 1_000_000, 10_000_000, 3_000_000, 100_000_000])
+        links = [[0, 1, L * rng.choice([1, 1, 2])], [1, 0, L * rng.choice([1, 1, 2])]]
+        if len(ents) == 3 and ents[2] == 2:
+            links += [[0, 2, L], [2, 1, L], [1, 2, L]]
+        lat = {(a, b): l for a, b, l in links}
+        window = rng.choice([None, L, L, L // 2, max(1, L - 1)])
+        w = window if window is not None else L
+        K_TRIG_A, K_START, K_MSG, K_TICK, K_T, K_C, K_REPLY = 0, 1, 2, 3, 4, 5, 6
+        prog, sprog, init = [], [], []
+        a, b = (0, 1) if rng.random() < 0.7 else (1, 0)
+        dx = lat[(a, b)] + rng.choice([0, 0, 1, w // 2])
+        prog.append([a, K_TRIG_A, dx, b, K_MSG])
+        if rng.random() < 0.4:
+            prog.append([b, K_MSG, lat[(b, a)] + rng.choice([0, 1]), a, K_REPLY])
+        ntm = rng.choice([1, 1, 2, 3])
+        tms = []
+        for j in range(ntm):
+            dc = rng.choice([1, 1, w // 10 + 1, w // 4, 0])
+            dt = rng.choice([dc + 1, dc + w // 10 + 1, w // 3, w // 2, dc, max(0, dc - 1), w + w // 2])
+            tms.append((dt, dc))
+            sprog.append(["tmr", b, K_START, dt, K_T, dc, K_C])
+        big = rng.choice([w + w // 2, 2 * w + 1, 3 * w, 7 * w, 20 * w])
+        prog.append([b, K_START, big, b, K_TICK])
+        if rng.random() < 0.25:
+            prog.append([b, K_START, rng.choice([w // 2, w - 1, w // 3]), b, K_TICK])      # control: a live event in between
+        k0 = 0
+        for _burst in range(rng.choice([1, 1, 2])):
+            m = k0 + rng.choice([1, 1, 2, 3, 5]) + dx // w + 1
+            room = max(1, w - max(dt for dt, _ in tms if dt <= w) if any(dt <= w for dt, _ in tms) else w // 2)
+            t0 = m * w + rng.choice([0, 1, room // 2, max(0, room - 1), rng.randrange(0, room)])
+            x = rng.choice([1, 1, 2, w // 4, w // 2, w - 1, w, w + 1])
+            arr = (m + 1) * w + x
+            if arr >= t0 + big:
+                arr = (m + 1) * w + 1
+            init.append([t0, b, K_START])
+            init.append([arr - dx, a, K_TRIG_A])
+            if rng.random() < 0.3:
+                init.append([arr + rng.choice([0, 1, -1]), b, K_TICK])       # a local delivery around the arrival
+            k0 = (t0 + big) // w + 1
+        if len(ents) == 3 and rng.random() < 0.5:
+            init.append([rng.randrange(0, (k0 + 1) * w), 2, K_TICK])
+        end = rng.choice([None, None, (k0 + 2) * w, (k0 + 2) * w + 1, arr, arr + 1])
+        return dict(family="timers", nparts=nparts, ents=ents, links=links, window=window, end=end,
+                    prog=prog, sprog=sprog, init=init, reps=1)
 
     def gen_tiex(self, rng, tier):
         """family tiex: two partitions with one stateful entity each, links both ways, everything on a grid of half the
@@ -733,7 +849,8 @@ class C05(core.Property):
             nodes = [SNode(e, case["ents"][e], scripts[e], [tuple(r) for r in case["sprog"] if r[1] == e], list(case["ents"]))
                      for e in range(nent)]
             for r in case["sprog"]:
-                nodes[r[1]].peers[r[-2]] = nodes[r[-2]]
+                if r[0] != "tmr":
+                    nodes[r[1]].peers[r[-2]] = nodes[r[-2]]
         else:
             nodes = [Node(e, case["ents"][e], scripts[e]) for e in range(nent)]
         for x in case["prog"]:
@@ -767,7 +884,11 @@ class C05(core.Property):
             kw = dict(links=links or None, max_workers=workers)
             if case["window"] is not None:
                 kw["window_size"] = case["window"] / 1e9
-            if end is not None:
+            if case.get("start"):
+                kw["start_time"] = Instant(case["start"])
+            if case.get("dur") is not None:
+                kw["duration"] = case["dur"] / 1e9          # end = start_time + duration
+            elif end is not None:
                 kw["end_time"] = Instant(end)
             ps = ParallelSimulation(parts, **kw)
             for t, e, k in case["init"]:
@@ -789,7 +910,14 @@ class C05(core.Property):
 
         nodes = self.build_nodes(case)
         end = case["end"]
-        sim = Simulation(entities=nodes, end_time=Instant(end) if end is not None else None)
+        skw = {}
+        if case.get("start"):
+            skw["start_time"] = Instant(case["start"])
+        if case.get("dur") is not None:
+            skw["duration"] = case["dur"] / 1e9
+        elif end is not None:
+            skw["end_time"] = Instant(end)
+        sim = Simulation(entities=nodes, **skw)
         for t, e, k in case["init"]:
             sim.schedule(Event(time=Instant(t), event_type=f"k{k}", target=nodes[e]))
         sim.run()
@@ -831,10 +959,11 @@ class C05(core.Property):
         body += ["emit " + " ".join(map(str, x)) for x in case["prog"]]
         body += ["init " + " ".join(map(str, x)) for x in case["init"]]
         w = "none" if case["window"] is None else str(case["window"])
+        st = f" {case['start']}" if case.get("start") else ""
         if "sprog" in case:
             body += ["s" + " ".join(map(str, r)) for r in case["sprog"]]
-            return (f"runs {variant} {case['nparts']} {w} {self._t(case['end'])}", body)
-        return (f"run {variant} {case['nparts']} {w} {self._t(case['end'])}", body)
+            return (f"runs {variant} {case['nparts']} {w} {self._t(case['end'])}{st}", body)
+        return (f"run {variant} {case['nparts']} {w} {self._t(case['end'])}{st}", body)
 
     def judge_block(self, case, impl_out):
         if not impl_out or impl_out[0].startswith("IMPL-"):
@@ -983,7 +1112,9 @@ THEOREMS: list[str] = [
     "HappyModel.C05.par_eq_seq_tie_commutative_R",
     "HappyModel.C05.par_eq_seq_no_ties_R",
     "HappyModel.C05.agree_before_first_tie_R",
-    "HappyModel.C05.ruleHandler_tieCommutative",
+    "HappyModel.C05.ruleHandler_commAt",
+    "HappyModel.C05.ghost_is_silent",
+    "HappyModel.C05.parallelRunFrom_spec",
     "HappyModel.C05.ruleHandlerL_eq",
     "HappyModel.C05.no_time_travel_current_false",
     "HappyModel.C05.idle_skip_safe",
